@@ -132,9 +132,12 @@ def s_lambda_call(const):
     return {"k": "lambda_call", "const": const}
 
 
-def s_nested_def(const, vid=None, fn=None):
-    """A function defined inside the body and called there; optionally it reads a variable / calls a (parameterless) helper."""
+def s_nested_def(const, vid=None, fn=None, form=None):
+    """A function defined inside the body and called there; optionally it reads a variable / calls a (parameterless) helper.
+    form: None (free names), "default" / "lambda_default" (captured as defaults of same-named parameters), "shadow" (same-named parameter)."""
     d = {"k": "nested_def", "const": const, "var": vid}
+    if form:
+        d["form"] = form
     if fn is not None:
         d["fn"] = fn
     return d
@@ -369,6 +372,10 @@ def _render_fn_lines(p, fid, ctx, prelude):
     if f.get("reads_setvar") and p.get("setvar") and p["setvar"]["module"] == f["module"]:
         # a module variable of a type whose iteration order depends on the interpreter's hash seed (never edited)
         lines.append("    r.append(sorted(%s))" % p["setvar"]["name"])
+    if f.get("calls_ext") and p.get("ext"):
+        # a call into non-accepted code (its result is dropped: whatever that code does, this function's value stays)
+        ctx.add("from %s import ext_helper" % p["ext"]["pkg"])
+        lines.append("    ext_helper()")
     if f.get("uses_builtins"):
         # calls of Python builtins (elsewhere a module variable may legitimately carry one of these names)
         lines.append("    r.append((max(1, 2), format(3), list(filter(None, (0, 1))), sorted([2, 1])))")
@@ -424,14 +431,31 @@ def _render_fn_lines(p, fid, ctx, prelude):
             lines.append("    lam%d = lambda: (\"lam\", %d)" % (i, s["const"]))
             lines.append("    x%d = lam%d()" % (i, i))
         elif k == "nested_def":
-            lines.append("    def inner%d():" % i)
+            form = s.get("form")
             extra = ""
+            params = []
+            callargs = ""
             if s.get("var"):
-                extra = ", " + ctx.var_expr(s["var"], "bare")
+                ve = ctx.var_expr(s["var"], "bare")
+                extra = ", " + ve
+                if form in ("default", "lambda_default"):
+                    # the module variable is captured as the default of a same-named parameter of the inner function
+                    params.append("%s=%s" % (ve, ve))
+                elif form == "shadow":
+                    # a same-named parameter of the inner function; the enclosing function hands the module variable over
+                    params.append(ve)
+                    callargs = ve
             if s.get("fn"):
-                extra += ", %s()" % ctx.fn_expr(s["fn"])
-            lines.append("        return (\"inner\", %d%s)" % (s["const"], extra))
-            lines.append("    x%d = inner%d()" % (i, i))
+                fe = ctx.fn_expr(s["fn"], need_bare=bool(form))
+                extra += ", %s()" % fe
+                if form in ("default", "lambda_default"):
+                    params.append("%s=%s" % (fe, fe))
+            if form == "lambda_default":
+                lines.append("    inner%d = lambda %s: (\"inner\", %d%s)" % (i, ", ".join(params), s["const"], extra))
+            else:
+                lines.append("    def inner%d(%s):" % (i, ", ".join(params)))
+                lines.append("        return (\"inner\", %d%s)" % (s["const"], extra))
+            lines.append("    x%d = inner%d(%s)" % (i, i, callargs))
         elif k == "nested_eval":
             if s.get("spelling") == "eval":
                 ctx.add("from dds import eval")
@@ -468,6 +492,11 @@ def _render_fn_lines(p, fid, ctx, prelude):
         # text that starts with a byte-order mark and has Windows and old-Mac line ends (what a spreadsheet export
         # looks like; a text-mode file or a BOM-stripping decoder would change it)
         lines.append("    return \"\\ufeffrows\\r\\n\" + \"|\".join(repr(y) for y in r) + \"\\r\\nprogress 50%\\rprogress 100%\\n\"")
+    elif f.get("ret") == "big_str":
+        # a text of ~100 kB (more than one read of a remote file system's "head" call returns)
+        lines.append("    return \"|\".join(repr(y) for y in r) + \"\\n\" + \"0123456789abcde\\u00e9\\n\" * 6000 + \"end of %s\"" % f["name"])
+    elif f.get("ret") == "big_bytes":
+        lines.append("    return \"|\".join(repr(y) for y in r).encode(\"utf-8\") + bytes(range(256)) * 400 + b\"end of %s\"" % f["name"])
     elif f.get("ret") == "str":
         lines.append("    return \"|\".join(repr(y) for y in r)")
     else:
@@ -535,7 +564,7 @@ def render(p):
         files[p["lazy"]["name"] + ".py"] = lazy_text(p)
     if p.get("ext"):
         e = p["ext"]
-        files[e["pkg"] + "/__init__.py"] = "# not accepted\nEXT_VAR = %s\n\n\ndef ext_helper():\n    # %s\n    return (\"ext\", %d)\n" % (e["var"], e["comment"], e["const"])
+        files[e["pkg"].replace(".", "/") + "/__init__.py"] = "# not accepted\nEXT_VAR = %s\n\n\ndef ext_helper():\n    # %s\n    return (\"ext\", %d)\n" % (e["var"], e["comment"], e["const"])
     return files
 
 
@@ -830,4 +859,4 @@ def e_relocate(p, new_pkg):
 
 
 def relocatable(p):
-    return not any(f == "import_full" for f in p["imports"].values())
+    return not any(f == "import_full" for f in p["imports"].values()) and not p.get("accept_by_module")
